@@ -72,11 +72,42 @@ def collision_tree(rng, k):
     return [(d, genlib.Xml("protocol", [], None, None, es)) for d, es in files.items()], names
 
 
-def systematic_collisions():
+def dynamic_colliders():
+    """type names whose module name equals a public helper name that a static package `__init__` of the working tree binds itself
+    (`import sys`, `from x import y`, a plain assignment): a generated module of that name is star-copied over the helper"""
+    out = []
+    try:
+        graph, _ = importgraph.extract_tree(os.path.join(common.REPO, "src"))
+    except Exception:  # noqa: BLE001
+        return out
+    for mod, (is_pkg, stmts) in graph.items():
+        if not is_pkg or "._generated" in mod:
+            continue
+        for st in stmts:
+            names = []
+            if st[0] == "import":
+                names = [st[2] or st[1].split(".")[0]]
+            elif st[0] == "from":
+                names = [b for _, b in st[2]]
+            elif st[0] in ("define", "rebind"):
+                names = [st[1]]
+            for n in names:
+                if n and not n.startswith("_") and n.isidentifier() and n.lower() == n:
+                    # a class name that differs from every static public class (NamesOK) but has this module name:
+                    # the last word in capitals (`sys` -> `SYS`, `serialization_error` -> `SerializationERROR`)
+                    words = n.split("_")
+                    pas = "".join(w.capitalize() for w in words[:-1]) + words[-1].upper()
+                    known = {c.lower() for c in COLLIDERS} | {c.lower() for c in out}
+                    if specgen.pascal_to_snake(pas) == n and pas.lower() not in known:
+                        out.append(pas)
+    return out
+
+
+def systematic_collisions(names=None):
     """every collider name in every directory it may live in (one type per tree)"""
     dirs = ["", "net", "net/client", "net/server", "map", "pub", "pub/server"]
     subdirs = {"": {"net", "map", "pub"}, "net": {"client", "server"}, "pub": {"server"}}
-    for n in COLLIDERS:
+    for n in (COLLIDERS if names is None else names):
         for d in dirs:
             if n.lower() in subdirs.get(d, set()):
                 continue
@@ -92,6 +123,11 @@ def run(ctx: Ctx, systematic=False, only_tree=None):
         return _run_trees(ctx, [only_tree], here, all_firsts=True)
     if systematic or ctx.tier == "thorough":
         trees += list(systematic_collisions())
+    dyn = dynamic_colliders()
+    ctx.extra["dynamic_colliders"] = dyn
+    # helper names bound by the static __init__ files themselves: always tried in every directory (the list is short:
+    # the documented children are in COLLIDERS already, private helpers are not copied by star-imports)
+    trees += list(systematic_collisions(dyn[:6]))
     cat = specgen.catalogue_specs()
     for i in ([0, 3, 5] if not (ctx.tier == "thorough") else range(len(cat))):
         trees.append((f"catalogue-{i}-{cat[i][0][:48]}", cat[i][2], []))
